@@ -193,6 +193,106 @@ Proof. exact failed_mark_reported. Qed.
 Print Assumptions C19_failed_mark_reported.
 
 (* ------------------------------------------------------------------------------------------
+   (e) fail() at the granularity of its primitives, the helper being a concurrent process.
+   The source does  stop_monitor() ; os.utime(lock, failed stamp)  - events EFailStop, EFailMark.
+   EFail (used above) is exactly the two with nothing in between ... *)
+Theorem C19_fail_is_stop_then_mark : forall (p : params) (w : world) (t : Z),
+  w_alive w = true ->
+  exec p w [(t, EFailStop); (t, EFailMark)] = fst (step p w (t, EFail)) /\
+  outs p w [(t, EFailStop); (t, EFailMark)] =
+    snd (step p w (t, EFail)) ++ [OMarked t (match w_lock w with Some _ => true | None => false end)].
+Proof. exact fail_is_stop_then_mark. Qed.
+Print Assumptions C19_fail_is_stop_then_mark.
+
+(* ... and in that order fail() is safe against the helper, for ALL events [mid] that fall between
+   the two primitives (wake-ups of the helper included) and ALL events [post] afterwards, from any
+   state with a live holder, without any assumption on timing:
+   (i) the helper never refreshes the lock after the first primitive;
+   (ii) if the stamp was written (fail() returns True) then until somebody removes the lock file
+   (release(), rm, cleanup) it keeps the failed stamp: is_locked() / is_failed() answer True and
+   get() is refused at every t >= failed stamp + expiry. *)
+Theorem C19_fail_in_source_order_is_sticky_against_the_helper :
+  forall (p : params) (w : world) (t1 : Z) (mid : list (Z * event)) (t2 : Z) (post : list (Z * event)),
+    w_alive w = true ->
+    let w1 := exec p w ((t1, EFailStop) :: mid) in
+    let w2 := fst (step p w1 (t2, EFailMark)) in
+    (forall t, ~ In (ORefresh t) (outs p (fst (step p w (t1, EFailStop))) (mid ++ (t2, EFailMark) :: post))) /\
+    (snd (step p w1 (t2, EFailMark)) = [OMarked t2 true] ->
+     forall post1 post2, post = post1 ++ post2 ->
+       Forall (fun te => keeps_lock (snd te)) post1 ->
+       w_lock (exec p w2 post1) = Some (p_failed_ts p) /\
+       forall t, p_failed_ts p + p_expiry p <= t ->
+         snd (step p (exec p w2 post1) (t, EQuery)) = [OLocked t true; OFailed t true] /\
+         snd (step p (exec p w2 post1) (t, EGet)) = [OGet t false]).
+Proof. exact fail_in_order_sticky. Qed.
+Print Assumptions C19_fail_in_source_order_is_sticky_against_the_helper.
+
+(* The opposite order (failed stamp first, helper stopped afterwards) is refuted: an admissible run
+   with the source constants in which the helper's 60th wake-up falls between the two primitives;
+   fail() returns True (OMarked true), the helper's refresh overwrites the stamp, and the lock is
+   an ordinary non-failed lock for everybody (until it expires 30 minutes later). *)
+Example C19_fail_mark_before_stop_refuted :
+  let t0 := 1000000 in
+  let evs := expand t0 [CWakes 59 5; CEv (t0 + 300) EFailMark; CWakes 1 5; CEv (t0 + 300) EFailStop;
+                        CEv (t0 + 300) EQuery; CEv (t0 + 2099) EQuery] in
+  valid ka_params 0 (init ka_params t0 0) evs = true /\
+  outs ka_params (init ka_params t0 0) evs =
+    [OMarked (t0 + 300) true; ORefresh (t0 + 300); OExit (t0 + 300) CKilled;
+     OLocked (t0 + 300) true; OFailed (t0 + 300) false; OLocked (t0 + 2099) true; OFailed (t0 + 2099) false].
+Proof. vm_compute. split; reflexivity. Qed.
+
+(* the same run with the primitives in the order of the source: no refresh, failed from then on *)
+Example C19_fail_in_source_order_same_run :
+  let t0 := 1000000 in
+  let evs := expand t0 [CWakes 59 5; CEv (t0 + 300) EFailStop; CWakes 1 5; CEv (t0 + 300) EFailMark;
+                        CEv (t0 + 300) EQuery; CEv (t0 + 2099) EQuery] in
+  valid ka_params 0 (init ka_params t0 0) evs = true /\
+  outs ka_params (init ka_params t0 0) evs =
+    [OExit (t0 + 300) CKilled; OMarked (t0 + 300) true;
+     OLocked (t0 + 300) true; OFailed (t0 + 300) true; OLocked (t0 + 2099) true; OFailed (t0 + 2099) true].
+Proof. vm_compute. split; reflexivity. Qed.
+
+(* ------------------------------------------------------------------------------------------
+   (f) the start of the helper.  [init] (all theorems above) lets the helper's utime() address THE
+   lock file.  start_monitor() passes self.fullname unchanged and does not change the working
+   directory: the helper then resolves the path to the file the holder created, for every working
+   directory of the holder and every jugdir, relative or absolute ... *)
+Theorem C19_helper_is_started_on_the_lock_file : forall (wcwd : list Z) (fullname : path),
+  helper_target wcwd (start_monitor_launch fullname) = lock_file wcwd fullname.
+Proof. exact start_monitor_addresses_the_lock. Qed.
+Print Assumptions C19_helper_is_started_on_the_lock_file.
+
+(* ... and passing the path unchanged is right iff it is absolute or the helper's working directory
+   is the holder's *)
+Theorem C19_unchanged_path_argument_needs_same_cwd_or_absolute_path :
+  forall (wcwd : list Z) (c : option path) (fullname : path),
+    helper_target wcwd {| l_cwd := c; l_arg := fullname |} = lock_file wcwd fullname <->
+    (fst fullname = true \/ helper_cwd wcwd {| l_cwd := c; l_arg := fullname |} = wcwd).
+Proof. exact unchanged_argument_iff. Qed.
+Print Assumptions C19_unchanged_path_argument_needs_same_cwd_or_absolute_path.
+
+(* e.g. Popen(..., cwd='/') with jug's default relative jugdir: holder in /10/11, jugdir 20
+   (lock file /10/11/20/30/40): the helper addresses /20/30/40 *)
+Example C19_helper_started_in_another_directory_refuted :
+  let l := {| l_cwd := Some (true, []); l_arg := (false, [20; 30; 40]) |} in
+  helper_target [10; 11] l = [20; 30; 40] /\ lock_file [10; 11] (false, [20; 30; 40]) = [10; 11; 20; 30; 40] /\
+  launch_check [10; 11] (false, [20; 30; 40]) l [20; 30; 40] [10; 11; 20; 30; 40] = false /\
+  launch_check [10; 11] (false, [20; 30; 40]) (start_monitor_launch (false, [20; 30; 40]))
+               [10; 11; 20; 30; 40] [10; 11; 20; 30; 40] = true.
+Proof. vm_compute. repeat split; reflexivity. Qed.
+
+(* a helper that addresses another file ends at its first refresh (ENOENT reads as "lock removed");
+   from then on the run is that of a lock without helper: a live holder's lock is reported failed
+   one expiry after it was acquired *)
+Example C19_without_helper_a_live_lock_is_reported_failed :
+  let t0 := 1000000 in
+  let w := {| w_now := t0; w_lock := Some t0; w_alive := true; w_held := true; w_mon := MDone |} in
+  outs ka_params w [(t0 + 1799, EQuery); (t0 + 1800, EQuery); (t0 + 1800, ECleanup); (t0 + 1801, EGet)] =
+    [OLocked (t0 + 1799) true; OFailed (t0 + 1799) false; OLocked (t0 + 1800) true; OFailed (t0 + 1800) true;
+     OCleaned (t0 + 1800) true; OGet (t0 + 1801) true].
+Proof. vm_compute. reflexivity. Qed.
+
+(* ------------------------------------------------------------------------------------------
    Non-vacuity: a concrete admissible run with the source constants (drift 2 s, start-up 3 s):
    lock acquired at 1000000; 130 rounds of 7 s (refreshes at +423 and +843); a query; the holder
    dies at +915; the monitor's next wake-up ends it; queries just before and at (last refresh) +
